@@ -9,16 +9,16 @@ CHECKS = {
  'C01': ('exploration', 'hx+ovl', 'reference-model monitor over seeded operation histories (differential oracle after every step)',
          'Every step of thousands of seeded multi-user histories is compared with a sequential reference model (exists/authenticate/list/list-full, admin flag, last-changed bracket, upgradeable flag) and probed with near-miss passwords judged by an independent model of the PBKDF2 key equivalence. A second stage replays such histories through the agent request interface (upgrades off/local) and checks verdict, admin flag, last-changed and list after every operation. Exploration is the right level: the quantifier is over all histories and byte strings, which can only be sampled.',
          'Trusts the reference model (go/ref), x/crypto primitives, and that sampled histories are representative; held on the executions observed.', '5 C01'),
- 'C02': ('exploration', 'hx', 'sandwich oracle (strict/permissive independent record parser + digest recomputation) over systematic record mutants',
+ 'C02': ('exploration', 'hx+ovl', 'sandwich oracle (strict/permissive independent record parser + digest recomputation) over systematic record mutants and a parameter-set shape matrix; the schema rules for unsupported files also through the agent interface and the command line',
          'Systematic mutants of reference-written records for every parameter set are authenticated with right/empty/wrong passwords and put through list, list-full, add, update and remove; verdicts are judged by an independent schema implementation with a strict and a permissive reading, so only answers outside the latitude the schema leaves are flagged. Canonical foreign-written records must authenticate.',
          'Trusts go/ref (independent scrypt+HMAC / argon2id recomputation); hang detection uses a 30 s/90 s limit on a deterministic call.', '5 C02'),
- 'C05': ('exploration', 'hx', 'trace monitor on a raw unix-socket client + callback recorder, judged by a reference wire decoder; Go race detector on the same runs',
+ 'C05': ('exploration', 'hx', 'trace monitor on a raw unix-socket client + callback recorder (incl. slow callbacks), judged by a reference wire decoder; Go race detector on the same runs; descriptor-exhaustion stage under a low RLIMIT_NOFILE',
          'Thousands of scripted byte streams (valid, truncated at every byte, over-long, padded, random) under scripted fragmentations, pauses and end modes are sent to the real sasl.Server; a monitor attributes every callback invocation to its connection and checks call count, argument equality, the one-part-then-EOF reply shape, the OK-only-if-approved rule and decodability of every reply by the bundled client decoder, for scripted callback outcomes with messages up to 70000 bytes; 64-way concurrent phase under -race.',
          'Trusts go/ref/wire.go; a request kept open forever is not a finished byte stream (nothing asserted); the compiled PAM module reads real replies in the C20 check.', '5 C05'),
  'C13': ('exploration', 'hx+pamh', 'differential oracle against a reference codec; scripted io.Readers for fragment independence',
          'All 5^4 length combinations at the limit values x 3 content classes for the request encoder (exhaustive over that finite grid), response messages around the limits, decoder-vs-reference on mutated encodings / random bytes / the repository fuzz corpus, and every input re-decoded under 1-byte, 2-way, k-way, zero-length-read and data-with-EOF fragmentations, which must equal the one-piece result.',
          'Trusts go/ref/wire.go. The PAM encoder clause is decided by the pam-encoder stage: the compiled module (with short writes injected) talks to a recording server and the bytes are compared with sasl.Request.Marshal.', '5 C13'),
- 'C14': ('exploration', 'hx', 'strict reference parser + independent digest recomputation over records written under generated YAML configurations',
+ 'C14': ('exploration', 'hx+ovl', 'strict reference parser + independent digest recomputation over records written under generated YAML configurations, and over records an agent writes after SIGHUP reloads',
          'Every record written by add/update (incl. same-password rewrites of back-dated records, default switches) under hundreds of generated YAML parameter sets is parsed strictly and its digest recomputed with x/crypto primitives directly from the YAML values; salt sizes, salt reuse across the whole run, timestamp brackets, base64 form and absence of passwords / HMAC keys from the directory are monitored.',
          'Trusts x/crypto scrypt/argon2 and crypto/hmac as the independent implementation.', '5 C14'),
  'C03': ('exploration', 'hx+sctrace', 'whole-tree snapshot monitor around every call with hostile names; syscall path monitor (strace) over a driver process',
@@ -30,7 +30,7 @@ CHECKS = {
  'C10': ('exploration', 'ovl+hx', 'bounded-progress monitor with goroutine-dump analysis proving a permanent block; delay failpoints; race detector',
          'Mixed request load from 4-64 clients over all upgrade modes (off/local/remote healthy, unreachable, stalled), hook directories with hanging scripts, all frontends; the monitor requires every request to return and a probe per request channel afterwards, and reports a violation only when two goroutine dumps prove the dispatcher blocked at the same place. Queue-occupancy histogram at upgrade enqueue shows the risky state (queue full) was reached. A second stage exhausts the descriptors of the running binary (low RLIMIT_NOFILE) and requires it to keep accepting afterwards.',
          'Liveness restated as bounded progress; schedules are steered, not enumerated.', '5 C10'),
- 'C11': ('exploration', 'ovl', 'porcupine linearizability check of client-boundary histories against a sequential store model; final-state conservation checks; race detector',
+ 'C11': ('exploration', 'ovl+hx', 'porcupine linearizability check of client-boundary histories against a sequential store model; final-state conservation checks; race detector; answer-vs-effect monitor under a 12 s request backlog; web-update-vs-login races against the built binary',
          'Hundreds to thousands of short concurrent histories with unique written values, recorded at the client boundary over all frontends, with sequential final reads after a FIFO barrier, are checked with porcupine (partitioned by user); the final directory must match the linearized state; 64-way cross-talk phase; all under -race with varied dispatcher failpoints. Evidence counts histories in which an upgrade executed after a later update (the harmful pattern).',
          'Trusts porcupine v1.3.0 and the sequential model; checker timeouts are inconclusive.', '5 C11'),
  'C18': ('exploration', 'hx+ovl', 'must-accept/must-reject predicates over structurally mutated YAML; accepted sets exercised (hash+verify); reload monitor',
@@ -39,10 +39,10 @@ CHECKS = {
  'C08': ('fault_enumeration', 'sctrace+hx', 'real SIGKILL at every syscall boundary (strace injection) + offline persistence-model enumeration of post-crash states, each judged by a fresh-process recovery oracle; concurrent raw readers',
          'For every add/update/init scenario the operation is killed for real on entry to every file-system-relevant syscall (boundary coverage is measured and every boundary is hit), and an offline model of the stated persistence semantics enumerates, at every boundary, every combination of lost/kept pending directory operations and unsynced data prefixes; each distinct state is materialised and judged by a fresh process (old-complete / new-complete / absent / empty reservation, passwords, other files, consistency check, residue). The simulator is cross-checked against the real post-kill directories. A separate writer process is raced by raw readers.',
          'Relative to the persistence model written in the property; kill points inside a syscall and torn sector writes are not observable; exhaustive over the boundaries of the traced executions, not over all executions.', '5 C08'),
- 'C09': ('fault_enumeration', 'sctrace', 'persistence-model enumeration of post-acknowledgement crash states from the recorded syscall trace + write/fsync/rename ordering monitor',
+ 'C09': ('fault_enumeration', 'sctrace', 'persistence-model enumeration of post-acknowledgement crash states from the recorded syscall trace + write/fsync/rename ordering monitor; time-stamped multi-thread traces with delayed fsync returns; mkdir/fsync monitor over the command line',
          'For every successful mutating operation the recorded syscalls are replayed into the persistence model and every state reachable after the acknowledgement (any subset of not-yet-fsynced entry operations lost) is materialised and must show the change; an ordering monitor checks fsync(file) before the rename and fsync(base) before the acknowledgement.',
          'Relative to the stated persistence model and the syscalls of one traced execution per scenario.', '5 C09'),
- 'C15': ('fault_enumeration', 'sctrace+hx', 'every-single-fault injection at syscall level (strace error injection) with a fresh-process byte-identity oracle; syscall monitor for read-only calls',
+ 'C15': ('fault_enumeration', 'sctrace+hx+ovl', 'every-single-fault injection at syscall level (strace error injection) with a fresh-process byte-identity oracle; syscall monitor for read-only calls; directory-diff monitor over name families; answer-vs-effect monitor under a request backlog',
          'For each mutating scenario every syscall between the markers that can fail is made to fail once with each applicable errno (ENOSPC, EIO, EACCES, EMFILE); a reported failure must leave the store byte-identical, a reported success must be complete; hostile auxiliary data must survive updates byte for byte, set-admin must keep the inode; semantically failing and read-only calls must issue no mutating syscall on the store and leave it byte- and inode-identical. A second stage runs the binary under strace -ff while only read-only / refused requests arrive on all frontends (SASL, LDAP bind/search/modify/add/delete, refused HTTP) and searches every thread log for mutating syscalls on the store.',
          'Single faults only; the fault is injected at the syscall boundary (the syscall does not execute). Known findings listed in known-findings.json.', '5 C15'),
  'C06': ('exploration', 'ovl', 'reference authorisation table + sequential store model as oracle over the enumerated endpoint x credential x target x body-shape matrix, with byte-level directory snapshots around every request',
@@ -51,7 +51,7 @@ CHECKS = {
  'C12': ('exploration', 'ovl', 'before/after record monitor (strict reference parser + digest recomputation) around logins on every frontend, with a FIFO barrier instead of waiting; directory snapshots incl. inodes; master-side request recorder for remote mode',
          'Library: upgradeable flag for every record x default x password. Agent: logins with right/wrong/near-miss passwords over all five frontends on stores mixing 4 parameter sets, every default (also switched by SIGHUP), with and without policy: record byte-identical or strict record under the default for exactly the login password with same extension and auxiliary bytes; must be rewritten on an idle agent when policy allows; converges; failed logins and upgrades-off change nothing (inode level); remote mode posts user + old password only and never touches the slave directory.',
          'Convergence restated with a FIFO barrier; remote POST awaited through the remote.done hook with a watchdog.', '5 C12'),
- 'C17': ('exploration', 'ovl', 'reference policy (zxcvbn called directly) as oracle over all write paths incl. the built binary, with directory snapshots; sandwich oracle over condition strings',
+ 'C17': ('exploration', 'ovl', 'reference policy (zxcvbn called directly) as oracle over all write paths incl. the built binary, with directory snapshots, also after SIGHUP reloads; sandwich oracle over condition strings',
          'Every write path (interface init/add/update, HTTP add/update by admin, own session and old password, CLI init/add/update of the binary, login-triggered upgrade) x condition kinds/thresholds x a password corpus x user names: refused exactly when the reference verdict fails, refused requests leave the directory identical; about 85 malformed or borderline condition strings and unknown types must stop constructor, NewStore and the binary, or be enforced with the written value.',
          'zxcvbn library trusted (the property defines the policy by it).', '5 C17'),
  'C19': ('exploration', 'ovl', 'online trace-specification checker over the sequence-numbered hook event log (notify/timer/round/exec/kill) plus boundary observations written by the hook scripts themselves',
